@@ -318,13 +318,13 @@ def setup():
 
 ENGINES = {
     "hist": ("harness/hist.go", "rapid state machine driving a real log and a reference model in lock-step; per-property profiles and oracles; traces replay without rapid"),
-    "codec": ("harness/codec_test.go", "differential test of the record/index codecs against an independent encoder/decoder; native fuzz target"),
+    "codec": ("harness/codec_test.go", "differential test of the record/index codecs against an independent encoder/decoder; native fuzz target; fixed enumerations of the largest message sizes and of index sizes around block boundaries (c13_boundary_test.go)"),
     "segdamage": ("harness/c07_test.go", "exhaustive damage enumeration of generated head segments with an independent reference parser"),
     "apidamage": ("harness/c14_test.go", "damage enumeration on multi-segment logs observed through the whole read API, differential against the undamaged copy"),
     "handles": ("harness/c19_test.go", "lock-matrix state machine over three handles"),
     "crash": ("harness/crash.go", "FS-tap crash-image and power-loss-image synthesis from complete runs, admissible-set oracle"),
-    "sched": ("harness/sched_test.go", "owned pause-point windows with brute-force linearization; free-running stress under the race detector"),
-    "notify": ("harness/notify_test.go", "cooperative scheduler over the notifier's pause points inside a synctest bubble; exhaustive small configurations"),
+    "sched": ("harness/sched_test.go", "owned pause-point windows with brute-force linearization and deadlock inspection (sched_test.go); Multi helpers held inside a Delete next to a Publish (helpers_test.go); free-running stress, duets, big appends and tail races, partly under the race detector (stress_test.go)"),
+    "notify": ("harness/notify_test.go", "cooperative scheduler over the notifier's pause points inside a synctest bubble: random single steps, macro steps, exhaustive small configurations, free-running mixes"),
 }
 
 PROP_ENGINES = {"C05": ["crash"], "C06": ["crash"], "C07": ["segdamage"], "C08": ["sched"], "C13": ["codec", "hist"], "C14": ["apidamage"],
